@@ -753,7 +753,8 @@ fn run_inner(g: &mut FnGraph<Node>, cfg: &RunCfg, sh: &Sh) -> DriveRes {
         let itx = itx.clone();
         sh.borrow_mut().mid_int = Some(Box::new(move || itx.try_send(InterruptSignal).expect("interrupt channel has room")));
     }
-    if cfg.nested > 0 && !cfg.api.mutable {
+    // (not under a constrained tokio budget: a nested run could not finish inside one poll there)
+    if cfg.nested > 0 && !cfg.api.mutable && cfg.task_budget.is_none() && cfg.budgets.is_empty() {
         // the outer call borrows the graph shared (`&self` API): a user function may use it too
         let gp: *const FnGraph<Node> = &*g;
         sh.borrow_mut().nested_left = cfg.nested;
